@@ -272,8 +272,25 @@ func CheckC19(t Target, src *choice.Src, st *Stats) *Violation {
 			// (file complete) - never anything in between
 			o := wops[src.Draw("fault.wop", len(wops))]
 			w.Faults = []simrt.Fault{{At: o.Seq, OpKind: o.Kind, Kind: choice.Pick(src, "fault.wkind", faultKinds[o.Kind]), Arg: src.Draw("fault.warg", 200)}}
-		} else if len(opens) > 0 {
+		} else if len(opens) > 0 && src.Bool("fault.open") {
 			w.Faults = []simrt.Fault{{At: opens[src.Draw("fault.file", len(opens))], OpKind: "open-r", Kind: choice.Pick(src, "fault.kind", []string{"EACCES", "EIO", "ENOENT"})}}
+		} else {
+			// the open succeeds, a read fails (after some bytes or none)
+			var reads []simrt.Op
+			for _, o := range ref.Ops {
+				if o.Kind == "read" && o.N > 0 {
+					reads = append(reads, o)
+				}
+			}
+			if len(reads) > 0 {
+				o := reads[src.Draw("fault.read", len(reads))]
+				w.Faults = []simrt.Fault{{At: o.Seq, OpKind: "read", Kind: "EIO", Arg: src.Draw("fault.readarg", o.N)}}
+			}
+		}
+		if len(wops) > 0 && src.Chance("fault.kill", 1, 4) {
+			// the regenerate is killed at some point of its write path: the checked-in file is intact or replaced, nothing else
+			o := wops[src.Draw("fault.killop", len(wops))]
+			w.Faults = []simrt.Fault{{At: o.Seq, OpKind: o.Kind, Kind: choice.Pick(src, "fault.sig", []string{"SIGTERM", "SIGINT"})}}
 		}
 	}
 	r := Exec(t, w)
@@ -362,6 +379,12 @@ func judgeC19(w *World, r *Result) *Violation {
 	if r.Exit == -1 || r.Exit == -2 || r.Exit == -3 {
 		return mk("self-regenerate-crashed", r.Panic)
 	}
+	if r.Killed != "" {
+		if r.Out.Same(r.OutBefore) || stripVersion(r.Out.Data) == selfRef {
+			return nil
+		}
+		return mk("killed-regenerate-left-neither-the-old-nor-the-new-file", fmt.Sprintf("the regenerate was killed by %s on its write path; %s before: %s, after: %s", r.Killed, w.Out, obs(r.OutBefore), obs(r.Out)))
+	}
 	if len(r.Fired) > 0 {
 		if r.Exit != 0 && !r.Out.Same(r.OutBefore) {
 			return mk("failed-regenerate-damaged-checked-in-file", fmt.Sprintf("regenerating with an unreadable input failed (exit %d) and changed %s: before %s, after %s", r.Exit, w.Out, obs(r.OutBefore), obs(r.Out)))
@@ -369,7 +392,7 @@ func judgeC19(w *World, r *Result) *Violation {
 		readFault := false
 		for _, f := range r.Fired {
 			// only reads of the configuration files count: a tool may look at other files (what is at -o) and cope with not getting them
-			if (f.OpKind == "open-r" || f.OpKind == "read") && f.At < len(r.Ops) && isInput(w, r.Ops[f.At].Path) {
+			if (f.OpKind == "open-r" || f.OpKind == "read") && simrt.IsErrno(f.Kind) && f.At < len(r.Ops) && isInput(w, r.Ops[f.At].Path) {
 				readFault = true
 			}
 		}
